@@ -307,6 +307,76 @@ func c20F32(p float32) (int64, int64) {
 	return sign * (frac | 1<<23), exp - 150
 }
 
+// c20HookEntry decodes one hook configuration the way the glue wants it:
+// (name, kind, decoded, whitelist, blacklist, pm, pe, maxd) as a Coq tuple.
+func c20HookEntry(name string, hkind int, yamlText string) string {
+	decoded := true
+	var wl, bl []string
+	var pm, pe, maxd int64
+	switch hkind {
+	case 0:
+		var c struct {
+			Whitelist []string `yaml:"whitelist"`
+			Blacklist []string `yaml:"blacklist"`
+		}
+		decoded = yaml.Unmarshal([]byte(yamlText), &c) == nil
+		wl, bl = c.Whitelist, c.Blacklist
+	case 1:
+		var c varinterval.Config
+		decoded = yaml.Unmarshal([]byte(yamlText), &c) == nil
+		pm, pe = c20F32(c.ModifyResponseProbability)
+		maxd = int64(c.MaxIncreaseDelta)
+	}
+	lst := func(l []string) string {
+		s := make([]string, len(l))
+		for i, x := range l {
+			s[i] = cB([]byte(x))
+		}
+		return cList(s)
+	}
+	return fmt.Sprintf("(%s, %d, %s, %s, %s, %s, %s, %s)", cB([]byte(name)), hkind, cBool(decoded), lst(wl), lst(bl), cZ(pm), cZ(pe), cZ(maxd))
+}
+
+type c20HE struct {
+	Name string `json:"name"`
+	Kind int    `json:"kind"`
+	Yaml string `json:"yaml"`
+}
+
+// c20HookList: middleware.HooksFromHookConfigs on a LIST of hook configurations (what the tracker does at
+// start-up with the configured prehooks / posthooks): one bad entry anywhere must refuse the list.
+func c20HookList(o *Out, kind string, es []c20HE) {
+	var cfgs []middleware.HookConfig
+	var items []string
+	for _, e := range es {
+		var opts map[string]interface{}
+		_ = yaml.Unmarshal([]byte(e.Yaml), &opts)
+		cfgs = append(cfgs, middleware.HookConfig{Name: e.Name, Options: opts})
+		items = append(items, c20HookEntry(e.Name, e.Kind, e.Yaml))
+	}
+	var err error
+	var hooks []middleware.Hook
+	func() {
+		defer func() {
+			if r := recover(); r != nil {
+				err = fmt.Errorf("panic: %v", r)
+			}
+		}()
+		hooks, err = middleware.HooksFromHookConfigs(cfgs)
+	}()
+	outc := c20Outcome(err, middleware.ErrDriverDoesNotExist)
+	if err == nil && len(hooks) != len(es) {
+		outc = 2 // "built" with fewer hooks than configured is not a build of the configuration
+	}
+	var ji []interface{}
+	for _, e := range es {
+		ji = append(ji, e)
+	}
+	o.add(Case{Coq: fmt.Sprintf("CHookList %s %d", cList(items), outc), Kind: kind,
+		In:  map[string]interface{}{"t": "hooklist", "entries": ji},
+		Obs: map[string]interface{}{"outcome": outc, "hooks_built": len(hooks)}})
+}
+
 func c20Hook(o *Out, kind, name string, hkind int, yamlText string) {
 	decoded := true
 	var wl, bl []string
@@ -539,6 +609,12 @@ func c20Replay(o *Out, in map[string]interface{}) error {
 		c20Store(o, "replay", jStr(in["name"]), jStr(in["yaml"]))
 	case "hook":
 		c20Hook(o, "replay", jStr(in["name"]), int(jInt(in["kind"])), jStr(in["yaml"]))
+	case "hooklist":
+		var es []c20HE
+		if err := reJSON(in["entries"], &es); err != nil {
+			return err
+		}
+		c20HookList(o, "replay", es)
 	case "url":
 		c20Url(o, "replay", string(unhx(in["target"])))
 	case "felive":
@@ -714,6 +790,24 @@ func c20Stream(o *Out, rng *rand.Rand, n int) {
 	c20Hook(o, "hook-varinterval", "interval variation", 1, "{}")
 	c20Hook(o, "hook-undecodable", "interval variation", 1, "max_increase_delta: many\n")
 	c20Hook(o, "hook-undecodable", "interval variation", 1, "modify_response_probability: [1]\n")
+	// lists of hooks: a bad entry first, in the middle, last; several good ones; none
+	{
+		gv := c20HE{"interval variation", 1, "modify_response_probability: 0.5\nmax_increase_delta: 10\n"}
+		gc := c20HE{"client approval", 0, "whitelist: [\"AZ2060\"]\n"}
+		bads := []c20HE{{"nosuch", 2, "{}"}, {"interval variation", 1, "modify_response_probability: 0\nmax_increase_delta: 10\n"},
+			{"interval variation", 1, "modify_response_probability: 0.5\nmax_increase_delta: 0\n"}, {"client approval", 0, "whitelist: [\"AZ206\"]\n"},
+			{"client approval", 0, "whitelist: [\"AZ2060\"]\nblacklist: [\"UT3400\"]\n"}}
+		c20HookList(o, "hook-list", nil)
+		c20HookList(o, "hook-list", []c20HE{gv})
+		c20HookList(o, "hook-list", []c20HE{gv, gc, gv})
+		for _, b := range bads {
+			c20HookList(o, "hook-list", []c20HE{b})
+			c20HookList(o, "hook-list", []c20HE{b, gv})
+			c20HookList(o, "hook-list", []c20HE{gc, b})
+			c20HookList(o, "hook-list", []c20HE{gv, b, gc})
+			c20HookList(o, "hook-list", []c20HE{b, gc, gv, gc})
+		}
+	}
 	good := "0123456789abcdef0123456789ABCDEF01234567"
 	for _, y := range []string{"{}", "whitelist: []\nblacklist: []\n", "whitelist: [\"AZ2060\"]\n", "blacklist: [\"AZ2060\", \"UT3400\"]\n", "whitelist: [\"AZ2060\"]\nblacklist: [\"UT3400\"]\n",
 		"whitelist: [\"AZ206\"]\n", "blacklist: [\"AZ20600\"]\n", "whitelist: [\"\"]\n", "whitelist: [\"AZ2060\", \"-AZ2060\"]\n"} {
